@@ -489,10 +489,6 @@ func init() {
 	ex["context.WithCancel"] = redirect("ModelWithCancel")
 	ex["context.WithTimeout"] = redirect("ModelWithTimeout")
 	ex["context.WithDeadline"] = redirect("ModelWithDeadline")
-	g("EventCount", func(fr *frame, a []value) value { return len(E.events) })
-	g("EventName", func(fr *frame, a []value) value { return E.events[a[0].(int)][0] })
-	g("EventData", func(fr *frame, a []value) value { return E.events[a[0].(int)][1] })
-	g("ResetEvents", func(fr *frame, a []value) value { E.events = nil; return nil })
 
 	// ------------------------------------------------------------ time
 	ex["time.Now"] = func(fr *frame, a []value) value { return timeVal(E.now()) }
